@@ -79,7 +79,7 @@ func serverOptsFor(batch string) ServerOpts {
 		return ServerOpts{Signals: true, Slow: true, MaxElems: 8}
 	case "c07.steps":
 		return ServerOpts{Signals: true, Slow: true, Misbehave: true, MaxElems: 8}
-	case "c07.hostile":
+	case "c07.hostile", "c07.race":
 		return ServerOpts{Hostile: true, Signals: true, Slow: true, Misbehave: true, DoneTwice: true, MaxElems: 10}
 	case "c07.garbage":
 		return ServerOpts{Hostile: true, Garbage: true, Signals: true, Misbehave: true, MaxElems: 8}
@@ -350,7 +350,7 @@ func runServerPlan(t *testing.T, plan *ServerPlan, fault ServerFault, tape *rt.T
 			obs.Delivered = append([]byte(nil), rec...)
 		}
 	}()
-	out := rt.Run(t, rt.Config{Tape: tape, Strategy: strat, MaxSteps: 400000, Trace: trace, OnPanic: onPanic}, func(s *rt.Sim) {
+	out := rt.Run(t, rt.Config{Tape: tape, Strategy: strat, MaxSteps: sessionMaxSteps(), Trace: trace, OnPanic: onPanic, LocalSeams: rt.RaceBuild}, func(s *rt.Sim) {
 		simRef = s
 		obs.Rec = newRecorder(plan.Behs)
 		plugin := BuildPlugin(plan.Plugin, obs.Rec)
@@ -766,7 +766,15 @@ func (serverEngine) SubRuns(t *testing.T, batch string, baseTape func() *rt.Tape
 	return out
 }
 
-func (serverEngine) Run(t *testing.T, batch string, tape *rt.Tape, runIdx uint64, extra json.RawMessage, trace func(string)) RunRecord {
+func (e serverEngine) Run(t *testing.T, batch string, tape *rt.Tape, runIdx uint64, extra json.RawMessage, trace func(string)) RunRecord {
+	if batch == "c07.race" {
+		// the same simulation in a -race build: unsynchronised map access in the server is process death
+		return watchRaces("C07", func() RunRecord { return e.run(t, batch, tape, runIdx, extra, trace) })
+	}
+	return e.run(t, batch, tape, runIdx, extra, trace)
+}
+
+func (serverEngine) run(t *testing.T, batch string, tape *rt.Tape, runIdx uint64, extra json.RawMessage, trace func(string)) RunRecord {
 	rec := RunRecord{Faults: map[string]int{}}
 	var plan *ServerPlan
 	var fault ServerFault
